@@ -792,3 +792,12 @@ func (e *Engine) ActualOf(v ssa.Value) ssa.Value {
 	}
 	return strip(v)
 }
+
+// RootCall is the call instruction in the root function through which the activation being evaluated was
+// entered (nil while the root itself is evaluated).
+func (e *Engine) RootCall() ssa.CallInstruction {
+	if len(e.stack) < 2 {
+		return nil
+	}
+	return e.stack[1].call
+}
